@@ -26,6 +26,9 @@ from .values import (
     s_int_from_bytes,
     tobit,
     as_sint,
+    ByteSeqOps,
+    KBytes,
+    join_octets,
 )
 
 
@@ -122,7 +125,7 @@ class s_bytes(metaclass=_BytesMeta):
     fromhex = staticmethod(builtins.bytes.fromhex)
 
 
-class SByteArray:
+class SByteArray(ByteSeqOps):
     """model of bytearray over (symbolic) 8-bit ints"""
 
     def __getattr__(self, k):
@@ -146,7 +149,10 @@ class SByteArray:
         if isinstance(i, slice):
             self.v[i] = list(x.v) if isinstance(x, (SBytes, SByteArray)) else list(x)
         else:
-            if not is_sym(x) and not 0 <= x <= 255:
+            if type(x).__name__ == "SZInt":
+                if bool(x > 255) or bool(x < 0):  # (decided by the word's axioms where they settle it, a fork otherwise)
+                    raise ValueError("byte must be in range(0, 256)")
+            elif not is_sym(x) and not 0 <= x <= 255:
                 raise ValueError("byte must be in range(0, 256)")
             if isinstance(x, (SLin, SInt)):
                 xs = SInt.lift(x)
@@ -160,10 +166,40 @@ class SByteArray:
         return iter(list(self.v))
 
     def append(self, x):
-        self.v.append(x)
+        self.v.append(None)
+        self[len(self.v) - 1] = x  # (range check of the element as for item assignment)
+
+    def extend(self, o):
+        for x in list(o):
+            self.append(x)
+
+    def insert(self, i, x):
+        self.v.insert(i, None)
+        self[i if i >= 0 else max(0, len(self.v) - 1 + i)] = x
+
+    def pop(self, i=-1):
+        return self.v.pop(i)
+
+    def reverse(self):
+        self.v.reverse()
+
+    def clear(self):
+        self.v.clear()
+
+    def copy(self):
+        r = SByteArray(); r.v = list(self.v); return r
+
+    def __delitem__(self, i):
+        del self.v[i]
 
     def __add__(self, o):
         r = SByteArray(); r.v = self.v + list(o); return r
+
+    def __radd__(self, o):
+        return SBytes(list(o) + self.v).n()  # bytes + bytearray is bytes
+
+    def __mul__(self, k):
+        r = SByteArray(); r.v = self.v * k; return r
 
     def __iadd__(self, o):
         self.v += list(o); return self
@@ -520,6 +556,174 @@ def install_tripwires(modules):
                     d[k] = w  # `from time import time` captured the original: rebind to the tripwire
 
 
+# ---------------------------------------------------------------- struct façade
+import struct as _struct
+import re as _re
+import types as _types
+
+_STD_SIZE = {"B": 1, "H": 2, "I": 4, "L": 4, "Q": 8, "b": 1, "h": 2, "i": 4, "l": 4, "q": 8, "x": 1, "c": 1, "s": 1, "?": 1}
+
+
+def _is_proxy_value(x):
+    return is_sym(x) or type(x).__name__ in ("SZInt", "ZBytes", "SByteArray", "SArith", "SDiff")
+
+
+class StructFacade:
+    """struct.pack / unpack / unpack_from / calcsize for symbolic integers and octet strings: standard-size formats with an
+    explicit byte order, unsigned integer codes, pad octets and octet strings; everything else (and every all-literal call)
+    goes to the real module"""
+
+    error = _struct.error
+
+    def __getattr__(self, k):
+        return getattr(_struct, k)
+
+    @staticmethod
+    def _fields(fmt):
+        if isinstance(fmt, bytes):
+            fmt = fmt.decode()
+        order = "big"
+        if fmt[:1] in "<>!=@":
+            if fmt[0] == "@":
+                raise OutOfReach("struct format with native alignment on symbolic values")
+            order = "little" if fmt[0] == "<" or (fmt[0] == "=" and sys.byteorder == "little") else "big"
+            fmt = fmt[1:]
+        else:
+            raise OutOfReach("struct format with native alignment on symbolic values")
+        out = []
+        for cnt, code in _re.findall(r"\s*(\d*)([a-zA-Z?])", fmt):
+            if code not in _STD_SIZE:
+                raise OutOfReach("struct code %r on symbolic values" % code)
+            n = int(cnt) if cnt else 1
+            if code == "s":
+                out.append(("s", n))
+            else:
+                out.extend([(code, _STD_SIZE[code])] * n)
+        return order, out
+
+    def pack(self, fmt, *vals):
+        if not any(_is_proxy_value(v) for v in vals):
+            return _struct.pack(fmt, *vals)
+        order, fields = self._fields(fmt)
+        if len([f for f in fields if f[0] != "x"]) != len(vals):
+            raise _struct.error("pack expected %d items for packing (got %d)" % (len([f for f in fields if f[0] != "x"]), len(vals)))
+        out = b""
+        it = iter(vals)
+        for code, size in fields:
+            if code == "x":
+                out = out + b"\x00"
+                continue
+            v = next(it)
+            if not _is_proxy_value(v):
+                out = out + _struct.pack(("<" if order == "little" else ">") + (("%ds" % size) if code == "s" else code), v)
+            elif code == "s":
+                if len(v) > size:
+                    v = v[:size]
+                out = out + v + b"\x00" * (size - len(v))
+            elif code in "BHILQ":
+                try:
+                    out = out + s_int.to_bytes(v, size, order)
+                except OverflowError:
+                    raise _struct.error("argument out of range")
+            else:
+                raise OutOfReach("struct code %r with a symbolic value" % code)
+        return out
+
+    def unpack_from(self, fmt, buffer, offset=0):
+        if not _is_proxy_value(buffer):
+            return _struct.unpack_from(fmt, buffer, offset)
+        order, fields = self._fields(fmt)
+        total = sum(sz for _, sz in fields)
+        if offset < 0:
+            offset += len(buffer)
+        if len(buffer) - offset < total:
+            raise _struct.error("unpack_from requires a buffer of at least %d bytes" % (total + offset))
+        out = []
+        o = offset
+        for code, size in fields:
+            part = buffer[o:o + size]
+            o += size
+            if code == "x":
+                continue
+            if not _is_proxy_value(part):
+                out.append(_struct.unpack(("<" if order == "little" else ">") + (("%ds" % size) if code == "s" else code), bytes(part))[0])
+            elif code == "s":
+                out.append(s_bytes(part))
+            elif code in "BHILQ":
+                out.append(s_int_from_bytes(part, order))
+            else:
+                raise OutOfReach("struct code %r with symbolic octets" % code)
+        return tuple(out)
+
+    def unpack(self, fmt, buffer):
+        if not _is_proxy_value(buffer):
+            return _struct.unpack(fmt, buffer)
+        order, fields = self._fields(fmt)
+        total = sum(sz for _, sz in fields)
+        if len(buffer) != total:
+            raise _struct.error("unpack requires a buffer of %d bytes" % total)
+        return self.unpack_from(fmt, buffer, 0)
+
+    def iter_unpack(self, fmt, buffer):
+        if not _is_proxy_value(buffer):
+            return _struct.iter_unpack(fmt, buffer)
+        order, fields = self._fields(fmt)
+        total = sum(sz for _, sz in fields)
+        if total == 0 or len(buffer) % total:
+            raise _struct.error("iterative unpacking requires a buffer of a multiple of %d bytes" % total)
+        return iter([self.unpack_from(fmt, buffer, o) for o in range(0, len(buffer), total)])
+
+
+_STRUCT = StructFacade()
+
+
+# ---------------------------------------------------------------- literals of the code under verification
+def _retype_consts(code):
+    """bytes constants of a code object (and of the code objects nested in it) become KBytes: the instruction stream,
+    names and every other constant stay what the compiler produced"""
+    changed = False
+    consts = []
+    for c in code.co_consts:
+        if type(c) is builtins.bytes:
+            consts.append(KBytes(c)); changed = True
+        elif isinstance(c, _types.CodeType):
+            n = _retype_consts(c)
+            changed = changed or n is not c
+            consts.append(n)
+        elif type(c) is tuple and any(type(x) is builtins.bytes for x in c):
+            consts.append(tuple(KBytes(x) if type(x) is builtins.bytes else x for x in c)); changed = True
+        else:
+            consts.append(c)
+    return code.replace(co_consts=tuple(consts)) if changed else code
+
+
+def retype_literals(modules):
+    seen = set()
+
+    def fix(f):
+        f = getattr(f, "__func__", f)
+        if isinstance(f, _types.FunctionType) and id(f) not in seen and (f.__module__ or "").startswith("okdmr.dmrlib"):
+            seen.add(id(f))
+            n = _retype_consts(f.__code__)
+            if n is not f.__code__:
+                f.__code__ = n
+
+    for m in modules:
+        for v in list(m.__dict__.values()):
+            if isinstance(v, _types.FunctionType):
+                fix(v)
+            elif isinstance(v, type) and (v.__module__ or "").startswith("okdmr.dmrlib"):
+                for w in list(v.__dict__.values()):
+                    if isinstance(w, (staticmethod, classmethod)):
+                        fix(w.__func__)
+                    elif isinstance(w, property):
+                        for g in (w.fget, w.fset, w.fdel):
+                            if g is not None:
+                                fix(g)
+                    else:
+                        fix(w)
+
+
 def install(modules=None):
     enum.EnumType.__call__ = _enum_call
     fac = NumpyFacade()
@@ -538,6 +742,14 @@ def install(modules=None):
                 d[k] = fac
             elif v is _array_mod.array:
                 d[k] = SArray
+            elif v is _struct:
+                d[k] = _STRUCT
+            elif v is _struct.pack:
+                d[k] = _STRUCT.pack
+            elif v is _struct.unpack:
+                d[k] = _STRUCT.unpack
+            elif v is _struct.unpack_from:
+                d[k] = _STRUCT.unpack_from
         d["int"] = s_int
         d["bytes"] = s_bytes
         d["bytearray"] = SByteArray
@@ -545,6 +757,7 @@ def install(modules=None):
         d["bin"] = s_bin
         d["isinstance"] = s_isinstance
     install_tripwires(modules)
+    retype_literals(modules)
     return modules
 
 
